@@ -51,6 +51,12 @@ fn masks(full: bool) -> Vec<String> {
 
 fn texts(full: bool) -> Vec<String> {
     let mut v: Vec<String> = [":hi", ":"].iter().map(|s| s.to_string()).collect();
+    // long multi-byte text: a length cut at a byte offset must not land inside a character
+    // (4-byte characters at the four alignments: any byte offset is a character boundary in
+    // only one of them)
+    for pre in ["", "a", "aa", "aaa"] {
+        v.push(format!(":{}{}", pre, "\u{1F600}".repeat(400)));
+    }
     if full {
         v.extend([":a b :c", ":é", "plain", "a:b"].iter().map(|s| s.to_string()));
         v.push(format!(":{}", long(1900)));
